@@ -498,7 +498,22 @@ def eval_rrsigdata(ctx, c, rep):
     for rd in rds:
         rdataset.add(rd)
     members = list(rdataset)
-    r, v = outcome(lambda: dns.dnssec._make_rrsig_signature_data((rrname, rdataset), rrsig, o), hx)
+    # argument forms: (name, rdataset) tuple or RRset object; origin as Name or as text
+    rr_arg = (rrname, rdataset)
+    if c.get("rrform") == "rrset":
+        rr_arg = dns.rrset.RRset(rrname, cls, ty)
+        rr_arg.update_ttl(c["ttl"])
+        for rd in members:
+            rr_arg.add(rd)
+    o_arg = o
+    if c.get("oform") == "text" and o is not None:
+        # a textual origin is read relative to the root: `example` means `example.`
+        o_arg = o.to_text()
+        if not o.is_absolute():
+            origin = origin + [""]
+            o = optname(origin)
+    ctx.count(f"rrsigdata.form.{'rrset' if c.get('rrform') == 'rrset' else 'tuple'}.{'otext' if isinstance(o_arg, str) else 'oname'}")
+    r, v = outcome(lambda: dns.dnssec._make_rrsig_signature_data(rr_arg, rrsig, o_arg), hx)
     line = (f"c15.rrsigdata {s[0]} {s[1]} {s[2]} {s[3]} {s[4]} {s[5]} {s[6]} {enc_labels(signer.labels)} "
             f"{enc_opt(origin)} {enc_labels(rrname.labels)} {ty} {cls} " + " ".join(fields_of(rd) for rd in members))
     ctx.corr(line.rstrip(), r, c)
@@ -508,7 +523,7 @@ def eval_rrsigdata(ctx, c, rep):
         return
     sf = r_fqdn(signer.labels, None if origin is None else lab(origin))
     of = r_fqdn(rrname.labels, None if origin is None else lab(origin))
-    if sf is None or of is None or (o is not None and not o.is_absolute()):
+    if sf is None or of is None or sf[-1:] != [b""] or of[-1:] != [b""]:
         if v is not None:
             ctx.fail("C15/rrsig-data/relative-name-without-origin-accepted", f"{r}", rep)
         return
@@ -708,14 +723,26 @@ def eval_bitmap(ctx, c, rep):
 
 
 def build_zone(c):
+    import dns.versioned
     origin = mkname(c["origin"])
-    z = dns.zone.Zone(origin, c.get("cls", 1), relativize=c["rel"])
+    cls = c.get("cls", 1)
+    zclass = c.get("zclass", "plain")
+    Z = dns.versioned.Zone if zclass == "versioned" else dns.zone.Zone
+    z = Z(origin, cls, relativize=c["rel"])
+    items = []
     for nd in c["nodes"]:
         name = mkname(nd["name"])
         for rs in nd["rds"]:
-            rds = dns.rdataset.Rdataset(c.get("cls", 1), rs["ty"], rs.get("covers", 0), rs["ttl"])
+            rds = dns.rdataset.Rdataset(cls, rs["ty"], rs.get("covers", 0), rs["ttl"])
             for sp in rs["rd"]:
-                rds.add(build_rd(c.get("cls", 1), sp), rs["ttl"])
+                rds.add(build_rd(cls, sp), rs["ttl"])
+            items.append((name, rds))
+    if zclass == "versioned":
+        with z.writer() as txn:
+            for name, rds in items:
+                txn.replace(name, rds)
+    else:
+        for name, rds in items:
             z.replace_rdataset(name, rds)
     return z
 
@@ -746,16 +773,97 @@ def eval_signzone(ctx, c, rep):
         events.append(f"S:{enc_labels(rrset.name.labels)}:{int(rrset.rdtype)}")
         txn.add(rrset.name, rrset.ttl, dummy_rrsig(rrset, origin))
 
-    r, v = outcome(lambda: dns.dnssec.sign_zone(z, add_dnskey=False, rrset_signer=signer), lambda _: "")
+    route = c.get("route", "plain")
+    handed = []
+
+    def signer2(txn, rrset):
+        handed.append((rrset.name, int(rrset.rdtype), int(rrset.rdclass), rrset.ttl, sorted(rd.to_wire(origin=origin) for rd in rrset)))
+        signer(txn, rrset)
+
+    pre = {(zone_fqdn(z, n), int(r.rdtype), int(r.covers)): (r.ttl, sorted(rd.to_wire(origin=origin) for rd in r), int(r.rdclass))
+           for n, node in z.nodes.items() for r in node.rdatasets}
+    soa0 = z.get_soa()
+    keyspecs = c.get("keys", [])
+    keys = [(None, dns.rdata.from_wire(z.rdclass, DNSKEY, bytes.fromhex(k), 0, len(bytes.fromhex(k)))) for k in keyspecs]
+    if route == "txn":
+        def run():
+            with z.writer() as txn:
+                dns.dnssec.sign_zone(z, txn=txn, add_dnskey=False, rrset_signer=signer2)
+        r, v = outcome(run, lambda _: "")
+    elif route == "adddnskey":
+        r, v = outcome(lambda: dns.dnssec.sign_zone(z, keys=keys, add_dnskey=True, dnskey_ttl=c.get("dnskey_ttl"), rrset_signer=signer2), lambda _: "")
+    else:
+        r, v = outcome(lambda: dns.dnssec.sign_zone(z, add_dnskey=False, rrset_signer=signer2), lambda _: "")
     impl = ("ok " + (" ".join(events) or "-")) if v is not None or r.startswith("ok") else r
-    ctx.corr(f"c15.signzone {1 if VARIANTS['cut'] == 'intended' else 0} {enc_labels(origin.labels)} 1 " + " ".join(order), impl, c)
-    ctx.count("signzone." + sig_family(r) + (".rel" if c["rel"] else ".abs"))
+    if route != "adddnskey":
+        ctx.corr(f"c15.signzone {1 if VARIANTS['cut'] == 'intended' else 0} {enc_labels(origin.labels)} 1 " + " ".join(order), impl, c)
+    ctx.count("signzone." + sig_family(r) + (".rel" if c["rel"] else ".abs") + "." + route + "." + c.get("zclass", "plain"))
     if not r.startswith("ok"):
         ctx.fail("C15/sign_zone/raises:" + r.split(" ")[1], f"sign_zone -> {r}", rep)
         return
+    apexfq = tuple(origin.labels)
+    if route == "adddnskey":
+        # the DNSKEY RRset at the apex: given keys added to what was there, TTL = explicit, else that of the
+        # existing DNSKEY RRset, else the SOA RRset's
+        old = pre.get((apexfq, DNSKEY, 0))
+        soa_ttl = pre[(apexfq, SOA, 0)][0]
+        want_ttl = c["dnskey_ttl"] if c.get("dnskey_ttl") is not None else (old[0] if old else soa_ttl)
+        if old:
+            want_ttl = min(want_ttl, old[0])  # adding to an existing RRset keeps the lower TTL (Rdataset.add, C07)
+        want_keys = sorted(set((old[1] if old else []) + [k.to_wire() for _, k in keys]))
+        got_rds = z.get_rdataset(origin, DNSKEY)
+        got_keys = sorted(rd.to_wire() for rd in got_rds) if got_rds is not None else []
+        if got_keys != want_keys or (keys and got_rds.ttl != want_ttl):
+            ctx.fail("C15/sign_zone/add_dnskey/dnskey-rrset-differs", f"apex DNSKEY ttl={got_rds.ttl if got_rds else None} (want {want_ttl}), {len(got_keys)} keys (want {len(want_keys)})", rep)
+            return
+        if keys:
+            pre[(apexfq, DNSKEY, 0)] = (want_ttl, want_keys, int(z.rdclass))
+            before[apexfq] = before[apexfq] | {DNSKEY}
+    # every RRset handed to the signer is the zone's RRset as it is (owner, class, TTL, records); the NSEC RRsets
+    # carry the SOA MINIMUM as TTL (RFC 4035 §2.3) and the zone's class
+    for name, ty, cls_, ttl, wires in handed:
+        if ty == NSEC:
+            if ttl != soa0.minimum or cls_ != int(z.rdclass):
+                ctx.fail("C15/sign_zone/nsec-ttl-or-class", f"NSEC at {name}: ttl {ttl} (SOA minimum {soa0.minimum}), class {cls_} (zone {int(z.rdclass)})", rep)
+                return
+            continue
+        cands = [v_ for k_, v_ in pre.items() if k_[0] == zone_fqdn(z, name) and k_[1] == ty]
+        if not any(v_ == (ttl, wires, cls_) for v_ in cands):
+            ctx.fail("C15/sign_zone/rrset-handed-to-signer-differs-from-zone", f"{name} type {ty}: ttl {ttl}, {len(wires)} records; zone has {[(x[0], len(x[1])) for x in cands]}", rep)
+            return
+    for name, node in z.nodes.items():
+        rds = node.get_rdataset(z.rdclass, NSEC)
+        if rds is not None and (rds.ttl != soa0.minimum):
+            ctx.fail("C15/sign_zone/nsec-ttl-or-class", f"NSEC rdataset at {name}: ttl {rds.ttl}, SOA minimum {soa0.minimum}", rep)
+            return
+    if route == "txn":
+        # a transaction that is rolled back leaves the zone alone (sign_zone must work in the caller's transaction)
+        z3 = build_zone(c)
+        snap = z3.to_text()
+        try:
+            with z3.writer() as txn:
+                dns.dnssec.sign_zone(z3, txn=txn, add_dnskey=False, rrset_signer=lambda t, rr: None)
+                txn.rollback()
+        except Exception as e:  # noqa
+            ctx.fail("C15/sign_zone/txn-route-raises", f"{e!r}", rep)
+            return
+        if z3.to_text() != snap:
+            ctx.fail("C15/sign_zone/txn-ignored", "sign_zone(txn=...) changed the zone although the caller rolled the transaction back", rep)
+            return
+    if c.get("probe_nsec3"):
+        from dns.rdtypes.ANY.NSEC3PARAM import NSEC3PARAM
+        z4 = build_zone(c)
+        snap = z4.to_text()
+        r4, _ = outcome(lambda: dns.dnssec.sign_zone(z4, add_dnskey=False, nsec3=NSEC3PARAM(1, 51, 1, 0, 0, b""), rrset_signer=lambda t, rr: None), lambda _: "")
+        if r4 != "FOREIGN NotImplementedError" or z4.to_text() != snap:
+            ctx.fail("C15/sign_zone/nsec3-not-refused", f"sign_zone(nsec3=...) -> {r4}; zone changed: {z4.to_text() != snap}", rep)
+            return
     # second run without a signer function (default signer, no keys): the chain must be the same
     z2 = build_zone(c)
-    r2, _ = outcome(lambda: dns.dnssec.sign_zone(z2, add_dnskey=False), lambda _: "")
+    if route == "adddnskey":
+        r2, _ = outcome(lambda: dns.dnssec.sign_zone(z2, keys=keys, add_dnskey=True, dnskey_ttl=c.get("dnskey_ttl"), rrset_signer=lambda t, rr: None), lambda _: "")
+    else:
+        r2, _ = outcome(lambda: dns.dnssec.sign_zone(z2, add_dnskey=False), lambda _: "")
     got = {}
     wires_ok = True
     for zz, tag in ((z, "recorder"), (z2, "nokeys")):
@@ -903,9 +1011,183 @@ def eval_zonemd(ctx, c, rep):
         ctx.fail("C15/zonemd/verify-accepts-wrong-digest", "verify_digest accepted a digest with one bit flipped", rep)
     except dns.zone.DigestVerificationFailure:
         pass
+    # verify_digest() without argument reads the apex ZONEMD RRset: any one matching record suffices, records with an
+    # unsupported scheme / hash algorithm are skipped, no ZONEMD RRset at all is NoDigest (RFC 8976 §4)
+    wrong = ZMD(z.rdclass, ZONEMD, soa.serial, 1, alg, bytes([want[-1] ^ 0x80]) + want[1:])
+    unsup = [ZMD(z.rdclass, ZONEMD, soa.serial, 1, 7, b"\x01" * 12), ZMD(z.rdclass, ZONEMD, soa.serial, 9, alg, want)]
+    plans = {"good": ([good], "ok"), "unsup+good": (unsup + [good], "ok"), "wrong+good": ([wrong, good], "ok"),
+             "wrong": ([wrong], "DigestVerificationFailure"), "unsup": (unsup, "DigestVerificationFailure"),
+             "none": ([], "NoDigest")}
+    vr = c.get("vroute", "good")
+    rdatas, expect = plans[vr]
+    z5 = build_zone(c)
+    zrds = dns.rdataset.Rdataset(z.rdclass, ZONEMD, 0, 300)
+    for rd in rdatas:
+        zrds.add(rd, 300)
+    if c.get("zclass") == "versioned":
+        with z5.writer() as txn:
+            txn.delete(origin, ZONEMD)
+            if rdatas:
+                txn.add(origin, zrds)
+    else:
+        z5.delete_rdataset(origin, ZONEMD)
+        if rdatas:
+            z5.replace_rdataset(origin, zrds)
+    try:
+        z5.verify_digest()
+        got = "ok"
+    except dns.zone.DigestVerificationFailure:
+        got = "DigestVerificationFailure"
+    except dns.zone.NoDigest:
+        got = "NoDigest"
+    except BaseException as e:
+        got = "FOREIGN " + type(e).__name__
+    ctx.count("zonemd.verify." + vr)
+    if got != expect:
+        ctx.fail(f"C15/zonemd/verify_digest-from-zone/{vr}", f"verify_digest() with apex ZONEMD records [{vr}] -> {got}, expected {expect}", rep)
 
 
-EVAL = {"digest": eval_digest, "keyid": eval_keyid, "rrsigdata": eval_rrsigdata, "ds": eval_ds, "nsec3": eval_nsec3,
+
+DS_NAMES = {"NULL": 0, "SHA1": 1, "SHA256": 2, "GOST": 3, "SHA384": 4}
+
+
+def eval_dsargs(ctx, c, rep):
+    """make_ds / make_cds and the rdataset helpers with every argument spelling"""
+    w = bytes.fromhex(c["key"])
+    kty = c["kty"]
+    key = dns.rdata.from_wire(1, kty, w, 0, len(w))
+    nlab = lab(c["name"])
+    origin = optname(c["origin"])
+    n_arg = dns.name.Name(nlab).to_text() if c["nform"] == "text" else dns.name.Name(nlab)
+    alg = c["alg"]
+    pol = {"default": None, "all": dns.dnssec.allow_all_policy}[c["policy"]]
+    val = c["validating"]
+    r, v = outcome(lambda: dns.dnssec.make_ds(n_arg, key, alg, origin, pol, val), lambda ds: hx(ds.to_wire()))
+    ctx.count(f"dsargs.{c['nform']}.{'str' if isinstance(alg, str) else 'int'}.{'val' if val else 'create'}.{c['policy']}." + sig_family(r))
+    if r.startswith("FOREIGN"):
+        ctx.fail("C15/make_ds/foreign-exception:" + r.split(" ")[1], f"make_ds({n_arg!r}, kty={kty}, {alg!r}, origin={origin}, validating={val}) -> {r}", rep)
+        return
+    # reference outcome, in the documented order: algorithm name, policy, key type, digest support, owner name
+    if isinstance(alg, str):
+        dt = DS_NAMES.get("".join(chr(ord(ch) - 32) if "a" <= ch <= "z" else ch for ch in alg))
+    else:
+        dt = alg
+    denied = set() if c["policy"] == "all" else ({0} if val else {0, 1, 3})
+    if c["nform"] == "text":
+        fq = r_fqdn(nlab, None if origin is None else list(origin.labels))
+    else:
+        fq = r_fqdn(nlab, None)
+    if dt is None:
+        exp = "err UnsupportedAlgorithm"
+    elif dt in denied:
+        exp = "err DeniedByPolicy"
+    elif kty not in (DNSKEY, 60):
+        exp = "err ValueError"
+    elif dt not in R_DS_HASH:
+        exp = "err UnsupportedAlgorithm"
+    elif fq is None or (origin is not None and c["nform"] == "text" and not origin.is_absolute() and nlab[-1:] != [b""]):
+        exp = "err NeedAbsoluteNameOrOrigin"
+    elif sum(len(l) + 1 for l in fq) > 255:
+        exp = "err NameTooLong"
+    else:
+        exp = "ok " + hx(r_ds(fq, w, dt))
+    if r != exp:
+        ctx.fail("C15/make_ds/arguments" + ("/validating" if val else "") + ("/text-name" if c["nform"] == "text" else "") + ("/text-algorithm" if isinstance(alg, str) else ""),
+                 f"make_ds({n_arg!r}, kty={kty}, {alg!r}, origin={origin}, policy={c['policy']}, validating={val}) -> {r}; expected {exp}", rep)
+        return
+    if not exp.startswith("ok") or val:
+        return
+    want = r_ds(fq, w, dt)
+    if c["policy"] != "default" and dt in (0, 1, 3):
+        return  # the helpers below always use the default policy
+    # CDS and the rdataset helpers: same octets, right types, TTL of the input rdataset
+    cds = dns.dnssec.make_cds(n_arg, key, alg, origin)
+    if cds.to_wire() != want or int(cds.rdtype) != 59:
+        ctx.fail("C15/make_cds/value-differs", f"make_cds -> type {int(cds.rdtype)} {cds.to_wire().hex()}", rep)
+        return
+    w2 = w[:4] + bytes([(w[4] if len(w) > 4 else 0) ^ 0x55]) + w[5:]
+    key2 = dns.rdata.from_wire(1, kty, w2, 0, len(w2))
+    krds = dns.rdataset.Rdataset(1, kty, ttl=c["ttl"])
+    krds.add(key)
+    krds.add(key2)
+    cdsr = dns.dnssec.dnskey_rdataset_to_cds_rdataset(n_arg, krds, alg, origin)
+    wants = sorted([want, r_ds(fq, w2, dt)])
+    if sorted(x.to_wire() for x in cdsr) != wants or int(cdsr.rdtype) != 59 or cdsr.ttl != c["ttl"]:
+        ctx.fail("C15/dnskey_rdataset_to_cds_rdataset/differs", f"type {int(cdsr.rdtype)} ttl {cdsr.ttl} {[x.to_wire().hex() for x in cdsr]}", rep)
+        return
+    dsr = dns.dnssec.cds_rdataset_to_ds_rdataset(cdsr)
+    if sorted(x.to_wire() for x in dsr) != wants or int(dsr.rdtype) != DS or dsr.ttl != c["ttl"] or any(int(x.rdtype) != DS for x in dsr):
+        ctx.fail("C15/cds_rdataset_to_ds_rdataset/differs", f"type {int(dsr.rdtype)} ttl {dsr.ttl}", rep)
+        return
+    # make_ds_rdataset from CDS: only the requested digest types, DS typed; nothing acceptable is a ValueError
+    other = 4 if dt != 4 else 2
+    both = dns.rdataset.Rdataset(1, 59, ttl=c["ttl"])
+    for x in list(cdsr) + list(dns.dnssec.dnskey_rdataset_to_cds_rdataset(n_arg, krds, other, origin)):
+        both.add(x)
+    name_obj = dns.name.Name(fq)
+    rr_in = (name_obj, both)
+    if c.get("rrform") == "rrset":
+        rr_in = dns.rrset.RRset(name_obj, 1, 59)
+        rr_in.update_ttl(c["ttl"])
+        for x in both:
+            rr_in.add(x)
+    algset = {alg}
+    r3, v3 = outcome(lambda: dns.dnssec.make_ds_rdataset(rr_in, algset), lambda d: " ".join(sorted(hx(x.to_wire()) for x in d)))
+    if v3 is None or sorted(x.to_wire() for x in v3) != wants or int(v3.rdtype) != DS or v3.ttl != c["ttl"]:
+        ctx.fail("C15/make_ds_rdataset/from-cds/filter-or-type", f"asked {alg!r} of CDS digests {{{dt},{other}}}: {r3[:200]} type {int(v3.rdtype) if v3 is not None else None}", rep)
+        return
+    r4, v4 = outcome(lambda: dns.dnssec.make_ds_rdataset(rr_in, {"SHA1" if isinstance(alg, str) else 1}), lambda d: str(len(d)))
+    if r4 != "err ValueError":
+        ctx.fail("C15/make_ds_rdataset/from-cds/no-acceptable-digest-accepted", f"asked SHA1 of CDS digests {{{dt},{other}}} -> {r4}", rep)
+        return
+    r5, _ = outcome(lambda: dns.dnssec.make_ds_rdataset((name_obj, dsr), algset), lambda d: str(len(d)))
+    r6, _ = outcome(lambda: dns.dnssec.dnskey_rdataset_to_cds_rdataset(n_arg, dsr, alg, origin), lambda d: str(len(d)))
+    r7, _ = outcome(lambda: dns.dnssec.cds_rdataset_to_ds_rdataset(krds), lambda d: str(len(d)))
+    if (r5, r6, r7) != ("err ValueError",) * 3:
+        ctx.fail("C15/ds-helpers/wrong-input-type-accepted", f"make_ds_rdataset(DS) {r5}; dnskey_rdataset_to_cds_rdataset(DS) {r6}; cds_rdataset_to_ds_rdataset(DNSKEY) {r7}", rep)
+        return
+    # make_ds_rdataset from DNSKEY/CDNSKEY: one record per key and digest type, the right octets ...
+    algs2 = {alg, other}
+    kin = (n_arg if c["nform"] == "name" else name_obj, krds)
+    v8 = dns.dnssec.make_ds_rdataset(kin, algs2)
+    wants8 = sorted(wants + [r_ds(fq, w, other), r_ds(fq, w2, other)])
+    if sorted(x.to_wire() for x in v8) != wants8 or v8.ttl != c["ttl"]:
+        ctx.fail("C15/make_ds_rdataset/from-dnskey/value-differs", f"{[x.to_wire().hex() for x in v8]}", rep)
+        return
+    # ... and (finding) the DS type
+    if int(v8.rdtype) != DS:
+        ctx.fail("C15/make_ds_rdataset/from-dnskey/result-typed-cds", f"make_ds_rdataset(DNSKEY rdataset) returns an rdataset of type {int(v8.rdtype)} (CDS), not DS (43)", rep)
+    if kty == DNSKEY:
+        ck = dns.dnssec.dnskey_rdataset_to_cdnskey_rdataset(krds)
+        if sorted(x.to_wire() for x in ck) != sorted([w, w2]) or ck.ttl != c["ttl"]:
+            ctx.fail("C15/dnskey_rdataset_to_cdnskey_rdataset/value-differs", f"{[x.to_wire().hex() for x in ck]}", rep)
+        elif int(ck.rdtype) != 60 or any(int(x.rdtype) != 60 for x in ck):
+            ctx.fail("C15/dnskey_rdataset_to_cdnskey_rdataset/result-typed-dnskey", f"dnskey_rdataset_to_cdnskey_rdataset returns an rdataset of type {int(ck.rdtype)} (DNSKEY), not CDNSKEY (60)", rep)
+        r9, _ = outcome(lambda: dns.dnssec.dnskey_rdataset_to_cdnskey_rdataset(dsr), lambda d: str(len(d)))
+        if r9 != "err ValueError":
+            ctx.fail("C15/ds-helpers/wrong-input-type-accepted", f"dnskey_rdataset_to_cdnskey_rdataset(DS) {r9}", rep)
+
+
+def eval_namedigest(ctx, c, rep):
+    """Name.to_digestable / canonicalize / to_wire(origin=…) — the path without a file"""
+    n = mkname(c["name"])
+    o = optname(c["origin"])
+    r, v = outcome(lambda: n.to_digestable(o), hx)
+    ctx.corr(f"c15.namedigest {enc_labels(n.labels)} {enc_opt(c['origin'])}", r, c)
+    ctx.count("namedigest." + sig_family(r))
+    fq = r_fqdn(n.labels, None if (o is None or not o.is_absolute()) else list(o.labels))
+    exp = "err NeedAbsoluteNameOrOrigin" if fq is None else "ok " + hx(r_wire(fq, True))
+    if r != exp:
+        ctx.fail("C15/name-to_digestable/value-differs", f"{n!r}.to_digestable({o!r}) -> {r}; RFC 4034 §6.2: {exp}", rep)
+        return
+    r2, _ = outcome(lambda: n.to_wire(origin=o), hx)
+    exp2 = "err NeedAbsoluteNameOrOrigin" if fq is None else "ok " + hx(r_wire(fq, False))
+    cl = list(n.canonicalize().labels)
+    if r2 != exp2 or cl != [r_lower(l) for l in n.labels]:
+        ctx.fail("C15/name-to_wire-or-canonicalize/value-differs", f"{n!r}: to_wire(origin) {r2} (expected {exp2}); canonicalize {cl}", rep)
+
+
+EVAL = {"digest": eval_digest, "dsargs": eval_dsargs, "namedigest": eval_namedigest, "keyid": eval_keyid, "rrsigdata": eval_rrsigdata, "ds": eval_ds, "nsec3": eval_nsec3,
         "bitmap": eval_bitmap, "signzone": eval_signzone, "zonemd": eval_zonemd}
 
 
@@ -1045,7 +1327,7 @@ def gen_rdataset_specs(rng, relative_ok=False, tname=None):
 def gen_rrsigdata(rng):
     relative = rng.chance(1, 3)
     ty, rds = gen_rdataset_specs(rng, relative_ok=relative)
-    origin = rng.choice(ORIGINS)
+    origin = rng.choice(ORIGINS + [[b"rel", b"Origin"], []])
     rr = gen_name(rng, absolute=not (relative and rng.chance(1, 2)), maxlabels=4, budget=80)
     if rng.chance(1, 4):
         rr = [b"*"] + rr[1:] if len(rr) > 1 else [b"*"] + rr
@@ -1068,7 +1350,8 @@ def gen_rrsigdata(rng):
     return {"kind": "rrsigdata", "cls": rng.choice([1, 1, 1, 3]), "ty": ty, "ttl": rng.choice([0, 300, 86400]),
             "sig": [ty, rng.choice([5, 8, 13, 15]), labels, rng.choice([0, 1, 300, 3600, 2**31 - 1, 2**32 - 1]),
                     rng.choice([0, 1893456000, 2**32 - 1]), rng.choice([0, 1577836800, 2**32 - 1]), rng.below(65536)],
-            "signer": hexl(signer), "origin": hexl(origin) if use_origin else None, "rrname": hexl(rr), "rds": rds}
+            "signer": hexl(signer), "origin": hexl(origin) if use_origin else None, "rrname": hexl(rr), "rds": rds,
+            "rrform": rng.choice(["tuple", "rrset"]), "oform": rng.choice(["name", "name", "text"])}
 
 
 def gen_ds(rng):
@@ -1117,14 +1400,14 @@ ZTYPES = {1: ("A", None), 28: ("AAAA", None), 15: ("MX", None), 16: ("TXT", None
           257: ("CAA", None), 12: ("PTR", None), 39: ("DNAME", None), 17: ("RP", None)}
 
 
-def z_rds(rng, ty, ttl):
+def z_rds(rng, ty, ttl, rel_ok=False):
     tname, wire = ZTYPES[ty]
     if tname is None:
         return {"ty": ty, "ttl": ttl, "rd": [{"ty": ty, "wire": wire}]}
     tpl = X.SPECIMENS[tname][0]
     names = []
     for _ in range(tpl.count("{n}")):
-        n = gen_name(rng, absolute=True, maxlabels=2, budget=40)
+        n = gen_name(rng, absolute=not (rel_ok and rng.chance(1, 2)), maxlabels=2, budget=40)
         names.append(hexl(n))
     return {"ty": ty, "ttl": ttl, "rd": [{"ty": ty, "text": tpl, "names": names}]}
 
@@ -1143,10 +1426,14 @@ def gen_zone(rng, for_zonemd=False):
 
     ttl = rng.choice([0, 5, 300])
     minimum = rng.choice([0, 5, 3600])
-    soa = {"ty": 6, "ttl": ttl, "rd": [{"ty": 6, "text": SOA_TPL % minimum, "names": [hexl([b"ns", b""]), hexl([b"Host", b""])]}]}
-    nodes[apex] = [soa, z_rds(rng, 2, ttl)]
+    cls = rng.choice([1, 1, 1, 4])
+    in_only = {1: 16, 28: 15, 33: 17}  # types implemented for class IN only: replaced in a zone of another class
+    fix = (lambda t: in_only.get(t, t)) if cls != 1 else (lambda t: t)
+    soa_names = [hexl([b"ns"] if rel and rng.chance(1, 2) else [b"ns", b""]), hexl([b"Host", b""])]
+    soa = {"ty": 6, "ttl": ttl, "rd": [{"ty": 6, "text": SOA_TPL % minimum, "names": soa_names}]}
+    nodes[apex] = [soa, z_rds(rng, 2, ttl, rel)]
     if rng.chance(1, 3):
-        nodes[apex].append(z_rds(rng, rng.choice([48, 15, 16, 1]), ttl))
+        nodes[apex].append(z_rds(rng, fix(rng.choice([48, 15, 16, 1])), rng.choice([ttl, 77]), rel))
     m = rng.below(12)
     nn = 0 if m == 0 else rng.choice([1, 2, 3, 4, 6, 9, 12])
     paths = []
@@ -1168,13 +1455,13 @@ def gen_zone(rng, for_zonemd=False):
     for p in paths:
         k = rng.below(10)
         if k < 3:  # delegation
-            tys = [2] + ([43] if rng.chance(1, 2) else []) + ([rng.choice([1, 28, 16])] if rng.chance(1, 3) else [])
+            tys = [2] + ([43] if rng.chance(1, 2) else []) + ([fix(rng.choice([1, 28, 16]))] if rng.chance(1, 3) else [])
         elif k < 4:
             tys = [rng.choice([65280, 1234])]
         else:
-            tys = rng.shuffle([1, 28, 15, 16, 33, 99, 257, 12, 17])[: rng.choice([1, 1, 2, 3])]
+            tys = rng.shuffle(sorted(set(fix(t) for t in [1, 28, 15, 16, 33, 99, 257, 12, 17])))[: rng.choice([1, 1, 2, 3])]
         tys = rng.shuffle(tys)
-        nodes[stored(p)] = [z_rds(rng, t, rng.choice([ttl, 60])) for t in tys]
+        nodes[stored(p)] = [z_rds(rng, t, rng.choice([ttl, 60]), rel) for t in tys]
     if rng.chance(1, 6) and not for_zonemd:
         # rdatasets that are already signatures
         k = rng.choice(list(nodes))
@@ -1182,12 +1469,19 @@ def gen_zone(rng, for_zonemd=False):
         nodes[k].append({"ty": 46, "covers": t0, "ttl": ttl, "rd": [{"ty": 46, "text": f"TYPE{t0} 8 2 300 20300101000000 20200101000000 1 {{n}} AAAA", "names": [hexl(origin)]}]})
     out = [{"name": hexl(k), "rds": v} for k, v in nodes.items()]
     out = [out[0]] + rng.shuffle(out[1:]) if rng.chance(1, 2) else rng.shuffle(out)
-    return {"origin": hexl(origin), "rel": rel, "nodes": out}
+    return {"origin": hexl(origin), "rel": rel, "nodes": out, "cls": cls,
+            "zclass": rng.choice(["plain", "plain", "versioned"])}
 
 
 def gen_signzone(rng):
     z = gen_zone(rng)
     z["kind"] = "signzone"
+    z["route"] = rng.choice(["plain", "plain", "txn", "adddnskey"])
+    if z["route"] == "adddnskey":
+        z["keys"] = [gen_keyid(rng)["rdata"] for _ in range(rng.choice([0, 1, 1, 2]))]
+        z["keys"] = [k for k in z["keys"] if len(k) <= 600]
+        z["dnskey_ttl"] = rng.choice([None, None, 0, 4242])
+    z["probe_nsec3"] = rng.chance(1, 10)
     return z
 
 
@@ -1196,6 +1490,7 @@ def gen_zonemd(rng):
     z["kind"] = "zonemd"
     z["alg"] = rng.choice([1, 1, 1, 2, 2, 2, 3, 0])
     z["scheme"] = rng.choice([1] * 9 + [0, 2])
+    z["vroute"] = rng.choice(["good", "unsup+good", "wrong+good", "wrong", "unsup", "none"])
     origin = lab(z["origin"])
     apexname = hexl([] if z["rel"] else origin)
     zm = lambda ttl, serial: {"ty": 63, "ttl": ttl, "rd": [{"ty": 63, "text": f"{serial} 1 1 " + X.H48, "names": []}]}
@@ -1218,6 +1513,28 @@ def gen_zonemd(rng):
     return z
 
 
+def gen_dsargs(rng):
+    k = gen_keyid(rng)
+    while len(k["rdata"]) > 1200:
+        k = gen_keyid(rng)
+    kty = rng.choice([DNSKEY, DNSKEY, 60, 43])
+    key = k["rdata"] if kty != 43 else (b"\x30\x39\x08\x02" + bytes(32)).hex()
+    rel = rng.chance(1, 3)
+    name = gen_name(rng, absolute=not rel, maxlabels=3, budget=rng.choice([40, 200]))
+    origin = rng.choice(ORIGINS + [[b"rel", b"o"]]) if rng.chance(2, 3) else None
+    alg = rng.choice([1, 2, 2, 4, 4, 0, 3, 5, "SHA1", "sha1", "SHA256", "sha256", "Sha384", "SHA384", "GOST", "null", "SHA512", "", "2"])
+    return {"kind": "dsargs", "name": hexl(name), "nform": rng.choice(["name", "text", "text"]),
+            "origin": None if origin is None else hexl(origin), "key": key, "kty": kty, "alg": alg,
+            "validating": rng.chance(1, 3), "policy": rng.choice(["default", "default", "all"]),
+            "ttl": rng.choice([0, 300, 86400]), "rrform": rng.choice(["tuple", "rrset"])}
+
+
+def gen_namedigest(rng):
+    name = gen_name(rng, absolute=rng.chance(1, 2), maxlabels=4, budget=100)
+    origin = rng.choice(ORIGINS + [[b"Rel", b"O"], []]) if rng.chance(3, 4) else None
+    return {"kind": "namedigest", "name": hexl(name), "origin": None if origin is None else hexl(origin)}
+
+
 def case_key(c):
     return json.dumps(c, sort_keys=True)
 
@@ -1225,7 +1542,7 @@ def case_key(c):
 def generate(ctx: Ctx, scale: float, rng):
     specs = all_specs()
     plan = [("digest", 2600, lambda: gen_digest(rng, specs)), ("keyid", 1200, lambda: gen_keyid(rng)),
-            ("rrsigdata", 1200, lambda: gen_rrsigdata(rng)), ("ds", 600, lambda: gen_ds(rng)),
+            ("rrsigdata", 1200, lambda: gen_rrsigdata(rng)), ("ds", 500, lambda: gen_ds(rng)), ("dsargs", 500, lambda: gen_dsargs(rng)), ("namedigest", 400, lambda: gen_namedigest(rng)),
             ("nsec3", 700, lambda: gen_nsec3(rng)), ("bitmap", 900, lambda: gen_bitmap(rng)),
             ("signzone", 500, lambda: gen_signzone(rng)), ("zonemd", 300, lambda: gen_zonemd(rng))]
     # every implemented pair at least twice with mixed-case absolute names (exhaustive over the table)
